@@ -245,6 +245,32 @@ pub fn gen_history(r: &mut Rng, mean_ops: u64, max_ops: u64) -> (Vec<Actor>, Vec
             ops.push(gen_op(r, &sw));
         }
     }
+    // now and then a long history: a couple of hundred commits, a tag every few commits, a side line
+    // merged back now and then (limits, buffers, quadratic shortcuts only show at this size)
+    if r.chance(1, 40) {
+        let n = 80 + r.below(160);
+        let mut long: Vec<Op> = vec![Op::Commit { actor: 0, dt: 1, adt: 0, with_file: false }, Op::Branch { name: "side-line".into(), from: None }];
+        let mut minor = 0u64;
+        for i in 0..n {
+            long.push(Op::Commit { actor: 0, dt: r.range(0, 50), adt: 0, with_file: false });
+            if i % 7 == 3 {
+                minor += 1;
+                long.push(Op::Tag { name: format!("v0.{minor}.0"), kind: if i % 3 == 0 { TagKind::Annot } else { TagKind::Light }, target: None, actor: 0, dt: 0 });
+            }
+            if i % 11 == 5 {
+                long.push(Op::Tag { name: format!("build-{i}"), kind: TagKind::Light, target: None, actor: 0, dt: 0 });
+            }
+            if i % 29 == 17 {
+                long.push(Op::CheckoutNewest);
+                long.push(Op::Commit { actor: 0, dt: 1, adt: 0, with_file: false });
+                long.push(Op::Checkout { branch: 0 });
+                long.push(Op::Merge { others: vec![1], actor: 0, dt: 1 });
+            }
+        }
+        long.extend(ops);
+        ops = long;
+        skeleton = format!("long-history+{skeleton}");
+    }
     // a burst of sibling tags (same X.Y.Z, different suffixes) on whatever commit HEAD is then
     if r.chance(1, 4) {
         let at = r.below(ops.len() as u64 + 1) as usize;
@@ -423,11 +449,19 @@ pub fn judge(w: &World, fmt: &str, sim_now: i64, obs: &Obs, stats: &mut Stats) -
     // known finding KF-C02-pep440-dev-order: the reported tag is not maximal under PEP 440, but it
     // is exactly the maximum under zerv's own (pinned by upstream tests) ranking of `X.devN`
     // above the pre-releases of X.  Identified only when that single deviation explains the choice.
+    // (judged on a model that is blind to nested tags, as zerv is: the two known findings can coincide
+    // on one commit)
+    let mut w_blind = w.clone();
+    for t in w_blind.tags.iter_mut() {
+        if t.kind == TagKind::Nested {
+            t.alive = false;
+        }
+    }
     vs.into_iter()
         .map(|mut x| {
             if x.field == "maximal" && x.clause.ends_with("base-tag") && fmt != "semver" {
-                if let Some(tag) = w.live_tags().find(|t| t.name == x.actual) {
-                    let quirk_max = maximal_in_family_with(w, tag.target, false, true);
+                if let Some(tag) = w_blind.live_tags().find(|t| t.name == x.actual) {
+                    let quirk_max = maximal_in_family_with(&w_blind, tag.target, false, true);
                     let devonly = ver::parse_pep440(&x.actual).map(|p| p.pre.is_none() && p.post.is_none() && p.dev.is_some()).unwrap_or(false);
                     if devonly && quirk_max.contains(&x.actual) {
                         stats.bump("probe.pep440_dev_only_ranked_above_prerelease");
